@@ -111,3 +111,14 @@ for _pid, _p in PROPERTIES.items():
 for _pid, _p in PROPERTIES.items():
     for _r in (hygiene.rule_cached_results_immutable, hygiene.rule_decorators_transparent):
         _p["rules"].insert(-1, _r)
+
+for _pid in ("C09", "C11", "C13"):
+    if bounds.rule_bounds not in PROPERTIES[_pid]["rules"]:
+        PROPERTIES[_pid]["rules"].insert(-1, bounds.rule_bounds)
+
+for _pid in ("C07", "C08", "C09", "C12", "C13", "C16"):
+    PROPERTIES[_pid]["rules"].insert(-1, gym.rule_env_holds_no_view)
+# coalitions are the keys of everything: the operator algebra (K3) runs under every property whose code handles coalitions
+for _pid, _p in PROPERTIES.items():
+    if _pid not in ("C19", "C20") and coalitions.rule_k3_operators not in _p["rules"]:
+        _p["rules"].insert(-1, coalitions.rule_k3_operators)
